@@ -62,6 +62,7 @@ type H struct {
 	// (the next publish gets this topic / an empty payload: emptyPayloadCut)
 	forceTopic string
 	forceEmpty bool
+	finishCase bool // the case ended early (inbound cases)
 	labels     map[string]bool
 	genBase    []*sim.World // earlier process generations
 	// acceptances in order, per level (Call pointers)
